@@ -67,6 +67,11 @@ type runner struct {
 	revoked map[int]time.Time
 	unlocked  map[int]bool
 	perturbed bool // etcd: a holder's lease expired although the script did not revoke it (machine stall)
+	// timingOff: the machine was too slow for the schedule's timing assumptions (a command between
+	// lockasync and join ran after the redis waiter's 500 ms retry; a loss signal arrived late):
+	// the schedule is re-run, and judged as is on the last attempt
+	timingOff  bool
+	asyncStart time.Time
 }
 
 // checkLeases notices an unscripted lease loss of a client that should still hold the lock
@@ -168,6 +173,7 @@ func (r *runner) exec(c cmd) (res string, slow bool) {
 			return "other:" + err.Error(), false
 		}
 		ch := make(chan asyncRes, 1)
+		r.asyncStart = time.Now()
 		go func() {
 			rctx, err := l.Lock(ctx)
 			ch <- asyncRes{rctx, err}
@@ -244,18 +250,24 @@ func (r *runner) exec(c cmd) (res string, slow bool) {
 		if !ok {
 			return "ctx-none", false
 		}
-		// one keepalive interval (TTL/3) + the client's 500 ms keepalive scheduling granularity + slack
-		bound := ttl/3 + 500*time.Millisecond + 700*time.Millisecond
+		// promptness bound: one keepalive interval (TTL/3) + the client's 500 ms keepalive scheduling
+		// granularity + slack; correctness: wait much longer before calling the context live
+		bound := ttl/3 + 500*time.Millisecond + 1500*time.Millisecond
+		wait := 10 * time.Second
 		if r.mini != nil {
-			bound = 150 * time.Millisecond
+			wait = 150 * time.Millisecond
+		}
+		if _, lost := r.revoked[c.C]; !lost {
+			wait = 150 * time.Millisecond
 		}
 		select {
 		case <-rctx.Done():
-		case <-time.After(bound):
+		case <-time.After(wait):
 		}
 		late := false
-		if t, ok := r.revoked[c.C]; ok && time.Since(t) > bound+ttl {
+		if t, ok := r.revoked[c.C]; ok && rctx.Err() != nil && time.Since(t) > bound {
 			late = true
+			r.timingOff = true
 		}
 		switch err := rctx.Err(); {
 		case err == nil:
@@ -275,7 +287,18 @@ func (r *runner) run() {
 	kind, msg := hx.Guard(60*time.Second, func() {
 		for _, c := range r.k.Cmds {
 			r.checkLeases()
+			t0 := time.Now()
 			x, s := r.exec(c)
+			el := time.Since(t0)
+			// a call that does not wait by design but took long, or that ran into a client-side
+			// deadline: the machine is too busy for this schedule's timing
+			nonBlocking := c.Op == "trylock" || c.Op == "unlock" || c.Op == "ff" || c.Op == "revoke" || (c.Op == "lock" && x == "acquired")
+			if (nonBlocking && el > 300*time.Millisecond) || strings.HasPrefix(x, "other:") {
+				r.timingOff = true
+			}
+			if r.mini != nil && len(r.pending) > 0 && c.Op != "lockasync" && time.Since(r.asyncStart) > 400*time.Millisecond {
+				r.timingOff = true
+			}
 			if c.Op == "unlock" {
 				r.unlocked[c.C] = true
 			}
@@ -561,45 +584,61 @@ func TestGen(t *testing.T) {
 		k.Impl = nil
 	}
 
-	// schedules are independent (own miniredis / own etcd lock key): run them on a worker pool
+	// one execution of a schedule; reports whether it should be re-run (environment perturbation)
+	runOnce := func(i int, k *kase, attempt int, last bool) bool {
+		rn := &runner{k: k, key: fmt.Sprintf("k%d_%d_%d", seed, i, attempt), locks: map[int]lock.DistributedLock{}, ctxs: map[int]context.Context{},
+			pending: map[int]chan asyncRes{}, leases: map[int]clientv3.LeaseID{}, seen: map[clientv3.LeaseID]bool{}, revoked: map[int]time.Time{},
+			unlocked: map[int]bool{}}
+		if k.Backend == "redis" {
+			m, err := miniredis.Run()
+			if err != nil {
+				k.Impl = map[string]any{"setup": err.Error()}
+				return false
+			}
+			defer m.Close()
+			st, err := redisstore.New(types.Config{MaxConcurrency: 10, Store: types.Redis, Redis: types.RedisConfig{Addr: m.Addr(), LockPrefix: "/lock"}}, t)
+			if err != nil {
+				k.Impl = map[string]any{"setup": err.Error()}
+				return false
+			}
+			rn.mini, rn.mk = m, st.CreateLock
+		} else {
+			rn.cli, rn.mk = ecli, etcd.CreateLock
+		}
+		rn.run()
+		if last {
+			if rn.timingOff && !rn.perturbed {
+				k.Impl["timing_off"] = true
+			}
+			return false
+		}
+		return rn.perturbed || rn.timingOff
+	}
+	// schedules are independent (own miniredis / own etcd lock key): first pass on a worker pool,
+	// then the perturbed ones again, one at a time (less load), at most twice
 	var wg sync.WaitGroup
-	sem := make(chan struct{}, 24)
+	var mu sync.Mutex
+	retry := []int{}
+	sem := make(chan struct{}, 8)
 	for i, k := range cases {
 		wg.Add(1)
 		sem <- struct{}{}
 		go func(i int, k *kase) {
 			defer wg.Done()
 			defer func() { <-sem }()
-			for attempt := 0; attempt < 3; attempt++ {
-				rn := &runner{k: k, key: fmt.Sprintf("k%d_%d_%d", seed, i, attempt), locks: map[int]lock.DistributedLock{}, ctxs: map[int]context.Context{},
-					pending: map[int]chan asyncRes{}, leases: map[int]clientv3.LeaseID{}, seen: map[clientv3.LeaseID]bool{}, revoked: map[int]time.Time{},
-					unlocked: map[int]bool{}}
-				if k.Backend == "redis" {
-					m, err := miniredis.Run()
-					if err != nil {
-						k.Impl = map[string]any{"setup": err.Error()}
-						return
-					}
-					st, err := redisstore.New(types.Config{MaxConcurrency: 10, Store: types.Redis, Redis: types.RedisConfig{Addr: m.Addr(), LockPrefix: "/lock"}}, t)
-					if err != nil {
-						m.Close()
-						k.Impl = map[string]any{"setup": err.Error()}
-						return
-					}
-					rn.mini, rn.mk = m, st.CreateLock
-					rn.run()
-					m.Close()
-					return
-				}
-				rn.cli, rn.mk = ecli, etcd.CreateLock
-				rn.run()
-				if !rn.perturbed {
-					return
-				}
+			if runOnce(i, k, 0, false) {
+				mu.Lock()
+				retry = append(retry, i)
+				mu.Unlock()
 			}
 		}(i, k)
 	}
 	wg.Wait()
+	for _, i := range retry {
+		if runOnce(i, cases[i], 1, false) {
+			runOnce(i, cases[i], 2, true)
+		}
+	}
 	for _, k := range cases {
 		out.Emit(k)
 	}
